@@ -220,8 +220,9 @@ def exactness_check(pid: str, part: str) -> int:
                     case.update(impl=x["impl"][:3000], model=x["model"][:3000])
                     disagreements.append(case)
 
-    # ---- T3-render: the rendering function of Lemma A lays the core fragment out like the parser does ---------
-    if part == "tables":
+    # ---- T3-render: the rendering function of Lemma A / Lemma B lays the core fragment out like the parser does ---------
+    # (run by C01 and by C02: the theorems of both - and those of C04 C06 C07 C08 C13 C14 built on them - speak about r_stmt)
+    if part in ("tables", "columns"):
         def frag(st):
             def q_(q, top):
                 if q[0] == "select":
@@ -268,7 +269,7 @@ def exactness_check(pid: str, part: str) -> int:
                 k = next((j for j in range(min(len(i_tree), len(m_tree))) if i_tree[j] != m_tree[j]), 0)
                 disagreements.append({"suite": "T3-render", "sql": sql, "ast": astgen.g_stmt(st), "parser_tree": i_tree[max(0, k - 200):k + 300],
                                       "rendered_tree": m_tree[max(0, k - 200):k + 300],
-                                      "detail": "Tree/Render.v (the function Lemma A, c01_exact_on_rendered_core, is stated about) no longer lays the statement out like the parser"})
+                                      "detail": "Tree/Render.v (the function Lemma A / Lemma B and the script theorems are stated about) no longer lays the statement out like the parser"})
 
     # ---- corpus: test-suite SQL, tie only (no specification for arbitrary SQL) -------------------
     recs = [x for x in corpus.load() if x["dialect"] != "non-validating" and (not quick or not x.get("origin", "").startswith("tpcds"))]
